@@ -31,6 +31,7 @@ HOSTILE_ZONES = [
     "Zone[1]", "a:b", "what?", "star*", "back\\slash", "'quoted'", "x" * 40, "Very long zone name that exceeds the limit", "Very long zone name that exceeds the limIT",
     "Very long zone name that exceeds the limit!", "Überhitzer – Stufe 2", "tab\tname", "Sheet", "  padded  ", "UPPER", "upper", "a/b:c", "History",
 ]
+LONG_FAMILY = [f"Evaporation and stripping plant - line {i}" for i in range(1, 9)]
 STEMS = ["case", "run A", "plant_2024", "x-y", "Projekt ä", "p (1)"]
 
 
@@ -211,18 +212,36 @@ class C16(World):
             channels=sw.sample(FILE_CHANNELS + MEM_CHANNELS, sw.choice([2, 4, 9])),
             w_export=sw.choice([0, 1, 2]),
             clients=sw.choice([1, 2]),
+            same_path=sw.random() < 0.35,  # the producer rewrites one fixed file per channel in place
         )
+        if swarm["same_path"]:
+            # few channels, so that the same file is rewritten and re-loaded several times in one history
+            swarm["channels"] = sw.sample(FILE_CHANNELS, sw.choice([1, 2])) + sw.sample(MEM_CHANNELS, sw.choice([0, 1]))
+            swarm["n_problems"] = max(2, swarm["n_problems"])
         probs = []
         for k in range(swarm["n_problems"]):
             p = problems.generate(pr, small=True)
             p.pop("zone_tree", None)
             hostile = swarm["hostile"] and pr.random() < 0.7
             zpool = HOSTILE_ZONES if hostile else SAFE_ZONES
+            if hostile and pr.random() < 0.3:
+                # a family of zones that agree in their first 31 characters (sheet names collide after truncation);
+                # needs enough streams to populate >= 5 zones
+                zpool = LONG_FAMILY
+                p = problems.generate(pr, small=False)
+                p.pop("zone_tree", None)
+                for j, s_ in enumerate(p["streams"]):
+                    s_["zone"] = f"z{j % 8}"
             zmap = {}
             for s in p["streams"]:
                 z = s["zone"]
                 if z not in zmap:
                     parts = z.split("/")
+                    if zpool is LONG_FAMILY:
+                        zmap[z] = LONG_FAMILY[len(zmap) % len(LONG_FAMILY)]
+                        s["zone"] = zmap[z]
+                        s["name"] = pr.choice(SAFE_NAMES) + (f" {pr.randrange(9)}" if pr.random() < 0.5 else "")
+                        continue
                     zmap[z] = "/".join(pr.choice(zpool).replace("/", "_") if hostile else pr.choice(zpool) for _ in parts) if len(parts) > 1 else pr.choice(zpool)
                 s["zone"] = zmap[z]
                 s["name"] = pr.choice(SAFE_NAMES) + (f" {pr.randrange(9)}" if pr.random() < 0.5 else "")
@@ -246,6 +265,8 @@ class C16(World):
                 p = args.randrange(len(probs))
                 ch = args.choice(swarm["channels"])
                 st = dict(op="load", w=args.randrange(nw), p=p, ch=ch, stem=args.choice(STEMS))
+                if swarm["same_path"] and args.random() < 0.8:
+                    st["same_path"] = True
                 if fault:
                     st["fault"] = args.choice(["read_error", "torn_file", "lost_rows"])
                     st["frac"] = round(args.uniform(0.05, 0.95), 3)
@@ -266,6 +287,11 @@ class C16(World):
                 labels = [f"{b} - {args.choice(['Direct Integration', 'Total Site Target', 'Total Process Target'])} ({args.choice(['Shifted', 'Real'])})" if args.random() < 0.8 else b for b in base]
                 if args.random() < 0.5:
                     labels += labels[: args.randrange(1, len(labels) + 1)]  # exact repeats -> suffixing
+                if args.random() < 0.25:
+                    # one (long) label many times over: suffixes reach two digits
+                    lb = args.choice(labels + [f"{z} - Direct Integration (Real)" for z in LONG_FAMILY[:2]])
+                    labels += [lb] * args.choice([9, 11, 14]) + [lb.upper()]
+                    args.shuffle(labels)
                 st = dict(op="alloc", labels=labels)
             elif op == "clock":
                 st = dict(op="clock", dt=args.choice([0, 0, 1, 61, 86400, -1, -7200]))
@@ -415,8 +441,12 @@ class C16(World):
                     flt = st.get("fault")
                     keep = None
                     d = os.path.join(scratch, f"in{step}")
-                    os.makedirs(d, exist_ok=True)
                     stem = st["stem"]
+                    if st.get("same_path"):
+                        d, stem = os.path.join(scratch, "inbox"), "current"
+                        if os.path.isdir(d):
+                            probe("input_file_rewritten_in_place")
+                    os.makedirs(d, exist_ok=True)
                     if ch in ("csv_dir", "csv_tuple", "xlsx") and prob["hostile"]:
                         ch = "json"  # hostile names only through dict/JSON/model channels
                     no_options = ch in ("csv_dir", "csv_tuple") and prob["options"]
